@@ -28,3 +28,47 @@ claim(
     note="Term counts are measured on the reference op, not taken from a formula; sampling of shapes, not proof.",
     design_ref="DESIGN.md section 4 C03",
 )
+claim(
+    "C05",
+    technique="Hypothesis: rule functions against statistics/Fractions references, unknown-name fuzzing, and per-op fitted scalars under every constraint vs the rule applied to scalars fitted under None, plus torch.autograd.gradcheck",
+    text="Generated-input search: mean rules (symmetry, bounds, ordering, value) on 1-6 scales in [1e-6,1e6]; arbitrary/near-miss/module-attribute names must raise ValueError through apply_constraint and through ops; for every constrained op and valid name the fitted forward and constrained-input backward scalars equal the independently computed rule value, weight/bias scalars are unaffected and finite differences agree with the gradients of constrained inputs.",
+    note="statistics module / Fractions and torch gradcheck are the trusted base; the gradcheck settings are self-tested against a harness op with mismatched scales.",
+    design_ref="DESIGN.md section 4 C05",
+)
+claim(
+    "C07",
+    technique="exhaustive enumeration of the (depth, mult, ratio) grid against a closed form in exact rational arithmetic + Hypothesis over constructed TransformerDecoder/TransformerStack wiring",
+    text="Thorough enumerates all 256 x 17 x 17 configurations (complete for the stated grid): every tau squared equals the closed form derived from the statement (Fractions, rel 1e-12) and the five balance statements hold when recomputed from the returned taus alone; constructed stacks carry rule(2i), rule(2i+1) on layer i and call the rule with (i, 2L) for i = 0..2L-1.",
+    note="Closed form derived in DESIGN.md from the statement; balance recomputation in float64 (<= 512 factors).",
+    design_ref="DESIGN.md section 4 C07",
+    engine="enumeration",
+)
+claim(
+    "C10",
+    technique="Hypothesis over parameter shapes/tags/depths/lr kinds/group layouts/optimizers against an independent u-muP learning-rate oracle written from the statement",
+    text="Generated-input search: the lr of every returned group (scaled_parameters with three scale functions; SGD/Adam/AdamW classes with both readout constraints) equals source lr x oracle factor (rel 1e-12 float, 1e-6 float32 tensor); untagged parameters, 4-D weights and a missing lr raise ValueError exactly when the statement says so.",
+    note="Oracle factor table is transcribed from the property statement, not from optim.py.",
+    design_ref="DESIGN.md section 4 C10",
+)
+claim(
+    "C11",
+    technique="Hypothesis over group layouts with a structural model of the expected groups (identity, order, carried keys, aliasing) followed by 1-3 zero-gradient optimizer steps checked against (1-wd)^k",
+    text="Generated-input search: result groups hold each input parameter exactly once in order with every other option carried over, the caller's groups and lr tensors are bit-identical with unchanged version counters, no lr tensor object is shared between result groups or with the caller, lr x weight_decay equals the requested decay, and zero-gradient SGD/AdamW steps multiply each parameter by (1-wd)^k.",
+    note="torch.optim.SGD/AdamW step semantics trusted; Adam excluded as in the statement.",
+    design_ref="DESIGN.md section 4 C11",
+)
+claim(
+    "C12",
+    technique="Hypothesis over widths/kernels/depths/learning rates with a closed-form oracle (every output moves by exactly eta/sqrt(depth) x sign of the upstream gradient)",
+    text="Generated-input search over fan_in/fan_out up to 4096, kernel 1-9, depth None/1..64, eta in [1e-4,1], Adam/AdamW eps=0: layer(x) after one step minus before equals -eta/sqrt(depth) x sign(g) to 1e-9 of eta.",
+    note="First Adam step with eps=0 is -lr*sign(grad) (torch.optim trusted).",
+    design_ref="DESIGN.md section 4 C12",
+)
+claim(
+    "C14",
+    technique="exhaustive enumeration of all 2^srbits random draws per input by substituting torch.randint; probabilities counted against the exact fractional position",
+    text="For every format E2..7 x M0..10 and srbits 1..12 / default, one quantise call enumerates every draw for a block of inputs: each result is a neighbour, representable inputs never move, P(round away) equals the fractional position exactly (all bits) or within half a unit of 2^-srbits (+ stated float32 slack below min normal), the draw request is exactly (0, 2^srbits, x.shape), and per-element draws act independently.",
+    note="Draw space enumerated exhaustively, input space sampled (structured + random).",
+    design_ref="DESIGN.md section 4 C14",
+    engine="enumeration",
+)
